@@ -365,11 +365,47 @@ def invalid_part_family():
                 yield {"tree": t, "widths": widths, "sinkw": 2 if t["k"] == "slice" and "s" in t["i"] else (1 if t["k"] == "slice" else 3)}
 
 
+def concat_slice_family(quick=True):
+    """Exhaustive: every integer index and every range (bounds None / -w..w, steps None, -1, 2, -2) of a 5-bit concatenation,
+    for three layouts of its parts — whole signals, a slice as a part, three parts with a port reference in the middle.
+    Ranges that land wholly inside one part, straddle two, run backwards, or take the concatenation whole are all in it."""
+    a2, b3 = {"k": "leaf", "kind": "sig", "n": "a", "w": 2}, {"k": "leaf", "kind": "sig", "n": "b", "w": 3}
+    a4, b2 = {"k": "leaf", "kind": "sig", "n": "a", "w": 4}, {"k": "leaf", "kind": "sig", "n": "b", "w": 2}
+    b1, q2 = {"k": "leaf", "kind": "sig", "n": "b", "w": 1}, {"k": "leaf", "kind": "pref", "n": "i0.q", "w": 2}
+    layouts = [
+        ({"k": "concat", "ps": [a2, b3]}, {"a": 2, "b": 3, "i0.q": 1, "bb.s": 1, "e0.q": 1}),
+        ({"k": "concat", "ps": [{"k": "slice", "p": a4, "i": {"s": 1, "e": 4, "st": None}}, b2]}, {"a": 4, "b": 2, "i0.q": 1, "bb.s": 1, "e0.q": 1}),
+        ({"k": "concat", "ps": [b1, q2, a2]}, {"a": 2, "b": 1, "i0.q": 2, "bb.s": 1, "e0.q": 1}),
+    ]
+    w = 5
+    bounds = [None] + list(range(-w, w + 1))
+    for parent, widths in (layouts[:2] if quick else layouts):
+        seen = set()
+        idxs = [{"i": i} for i in range(-w, w)]
+        for st in (None, -1, 2, -2):
+            for s_, e_ in itertools.product(bounds, bounds):
+                sel = py_select(w, slice(s_, e_, st))
+                if not sel:
+                    continue
+                # in the quick tier one spelling per (selected bits, sign of each bound); all spellings in the thorough tier
+                key = (tuple(sel), st, s_ is None, e_ is None, (s_ or 0) < 0, (e_ or 0) < 0)
+                if quick and key in seen:
+                    continue
+                seen.add(key)
+                idxs.append({"s": s_, "e": e_, "st": st})
+        for i in idxs:
+            t = {"k": "slice", "p": parent, "i": i}
+            b = py_bits(t)
+            if b:
+                yield {"tree": t, "widths": widths, "sinkw": len(b)}
+
+
 def stream_b(ctx):
     rep, rng = ctx.rep, ctx.rng
     n = 400 if ctx.quick else 6000
     cases = list(pair_family(3)) + ([] if ctx.quick else list(pair_family(4))) + list(stride_family((6,) if ctx.quick else (6, 7)))
     cases += list(chain_family(8)) + ([] if ctx.quick else list(chain_family(7))) + list(invalid_part_family())
+    cases += list(concat_slice_family(ctx.quick))
     rep.extra["pair_family"] = len(cases)
     for k in range(n):
         widths = {"a": rng.randint(1, 5), "b": rng.randint(1, 4), "i0.q": rng.randint(1, 4), "bb.s": rng.randint(1, 4), "bb.sub.s": rng.randint(1, 6),
